@@ -77,5 +77,5 @@ META = {
             "model, and the Lean property clauses are evaluated on the implementation's own observations.",
     "note": "Trusted: Lean kernel, hand-written model/spec, the gated daemon and stable-point detection of the harness. The suspected defect 'a re-track with another mode "
             "is deduplicated' is real behaviour but ends in pin_error (Status asks the daemon for the recorded mode) and is repaired by recover: no finding.",
-    "technique": "regenerated source text of the anchored functions checked against the transcribed snapshot (rfl) + Lean 4 inductive invariant over an LTS + schedule-level differential correspondence against a gated daemon",
+    "technique": "regenerated source text of the anchored functions and the function inventory of the anchored files checked against the transcribed snapshot (rfl) + Lean 4 inductive invariant over an LTS + schedule-level differential correspondence against a gated daemon",
 }
